@@ -426,15 +426,20 @@ func (op *redirOp) exec(fm *Frame, fops *[]formOwnedPort) Exception {
 
 	dstPort := growAccess(&fm.ports, dst)
 	dstFop := growAccess(fops, dst)
-	if *dstPort != nil {
-		dstFop.close(*dstPort)
-		*dstFop = formOwnedPort{File: false, Chan: false}
-	}
 
 	if op.srcIsFd {
 		src, err := evalForFd(fm, op.srcOp, true, "redirection source")
 		if err != nil {
 			return fm.errorp(op, err)
+		}
+		if src == dst && *dstPort != nil {
+			// Duplicating a port onto itself changes nothing; in particular
+			// it must not close a file this form has opened for the port.
+			return nil
+		}
+		if *dstPort != nil {
+			dstFop.close(*dstPort)
+			*dstFop = formOwnedPort{File: false, Chan: false}
 		}
 		switch {
 		case src == -1:
@@ -448,6 +453,10 @@ func (op *redirOp) exec(fm *Frame, fops *[]formOwnedPort) Exception {
 			*dstPort = fm.ports[src]
 		}
 		return nil
+	}
+	if *dstPort != nil {
+		dstFop.close(*dstPort)
+		*dstFop = formOwnedPort{File: false, Chan: false}
 	}
 	src, err := evalForValue(fm, op.srcOp, "redirection source")
 	if err != nil {
